@@ -355,6 +355,14 @@ def _check(case):
             neutral_ = 1.0 if spec["log"] else 0.0
             spurious2 = not case["flat"] and any(pick(c2, nm, v) is not None and not math.isnan(pick(c2, nm, v)) and abs(pick(c2, nm, v) - neutral_) > 1e-9
                                                  for v in range(nv) for nm in names)
+            if lm.nl_terms(spec):
+                # a genuinely nonlinear equation (x^3, exp(x)) can have several steady states and the statement does
+                # not promise a particular one: the other run is judged by the equations, not by equality
+                for v in range(nv):
+                    sv2 = _spec_for_variant(spec, v)
+                    _residual_check(col, sv2, {nm: pick(l2, nm, v) for nm in names}, {nm: pick(c2, nm, v) for nm in names},
+                                    "blocks:other_run_residual" + (SPURIOUS if spurious2 else ""), f"(split {other}, variant {v})")
+                raise ArithmeticError("several steady states possible: not compared")
             for v in range(nv):
                 for nm in names:
                     a, b = pick(levels, nm, v), pick(l2, nm, v)
